@@ -278,8 +278,16 @@ impl StreamData {
         let start_idx = self.entries.binary_search_by(|e| e.id.cmp(start))
             .unwrap_or_else(|idx| idx);
         
-        let end_idx = self.entries.binary_search_by(|e| e.id.cmp(end))
-            .unwrap_or_else(|idx| if idx > 0 { idx - 1 } else { 0 });
+        // Number of entries with id <= end: nothing is in range when it is zero
+        // (`idx - 1 or 0` used to select the first entry for an end below every entry)
+        let end_excl = match self.entries.binary_search_by(|e| e.id.cmp(end)) {
+            Ok(idx) => idx + 1,
+            Err(idx) => idx,
+        };
+        if end_excl == 0 || start_idx >= end_excl {
+            return StreamRangeResult { entries: Vec::new() };
+        }
+        let end_idx = end_excl - 1;
         
         let mut result_entries = Vec::new();
         
